@@ -13,7 +13,7 @@ import fake_s3
 from driver_common import main
 from lib import filespec
 
-from playback.tape_recorder import TapeRecorder
+from playback.tape_recorder import TapeRecorder, CapturedArg
 from playback.tape_cassettes.in_memory.in_memory_tape_cassette import InMemoryTapeCassette
 from playback.tape_cassettes.file_based.file_based_tape_cassette import FileBasedTapeCassette
 from playback.interception.files.file_interception import FileInterception
@@ -48,6 +48,25 @@ def write_file(path, spec):
             f.truncate(spec["n"])
         else:
             f.write(filespec.expand(spec))
+
+
+def rewrite_file(path, spec, stamp=None, how='inplace'):
+    """(Re)write the file the way the writers of intercepted files do: in place or through a temporary file that
+    replaces it; `stamp` = what the writer does to the modification time afterwards: None - nothing (the clock's),
+    an int - sets it (a downloader stamping the server's time, `cp -p`, archive extraction), 'keep' - puts back
+    the time the path had before (tools that edit in place and preserve the timestamps)."""
+    before = os.stat(path) if os.path.exists(path) else None
+    if how == 'replace':
+        tmp = path + '.part'
+        write_file(tmp, spec)
+        os.replace(tmp, path)
+    else:
+        write_file(path, spec)
+    if stamp == 'keep':
+        if before is not None:
+            os.utime(path, ns=(before.st_atime_ns, before.st_mtime_ns))
+    elif stamp is not None:
+        os.utime(path, (stamp, stamp))
 
 
 def read_file(path):
@@ -394,11 +413,14 @@ def _run_seq(case, d):
         return lambda op: op.i_fetch(*args, **kwargs)
 
     ids = []
-    for spec in case["contents"]:
-        write_file(ri, spec)
+    stamps = case.get("stamps") or [None] * len(case["contents"])
+    for spec, stamp in zip(case["contents"], stamps):
+        # every recording finds its file at the SAME recorded path, (re)written by the previous holder of the path
+        rewrite_file(ri, spec, stamp, case.get("how", "inplace"))
         n = len(saved)
         Op().execute(caller(side["rec"], ri))
-        os.remove(ri)
+        if not case.get("stamps"):
+            os.remove(ri)
         if len(saved) != n + 1:
             return {"status": "recording-%d-not-saved" % len(ids)}
         ids.append(saved[-1])
@@ -416,8 +438,142 @@ def _run_seq(case, d):
     return {"status": "ok", "steps": steps, "rets": rets}
 
 
+def run_hist(case):
+    d = scratch(case.get("dir") == "unicode")
+    try:
+        return _run_hist(case, d)
+    finally:
+        shutil.rmtree(d, ignore_errors=True)
+        fake_s3.reset()
+
+
+def _run_hist(case, d):
+    """One recorded operation in which the file at ONE path is handed to the file handlers several times - to an
+    intercepted input (the function that produces / looks at the file) or to an intercepted output (the function the
+    operation hands the file on to) - and is rewritten between interceptions.  Replayed at a different path.
+    Observed per step: input - the bytes at the replayed path right after the replayed call; output - the holders
+    restored from the recorded and from the replayed output."""
+    name = case["name"]
+    ri, pi = os.path.join(d, 'ri.bin'), os.path.join(d, 'pi.bin')
+    roles = {ri: 'RI', pi: 'PI'}
+    lim = case["limit"]
+    with EnvVar(lim.get("env")):
+        ih = InputInterceptionFileDataHandler(case["in"]["index"], name, explicit_limit(lim))
+        oh = OutputInterceptionFileDataHandler(case["out"]["index"], name, explicit_limit(lim))
+    cassette = make_cassette(case["cassette"], d)
+    saved = []
+    real_save = cassette.save_recording
+    cassette.save_recording = lambda recording: (saved.append(recording.id), real_save(recording))[1]
+    recorder = TapeRecorder(cassette)
+    recorder.enable_recording()
+    steps = case["steps"]
+    how = case.get("how", "inplace")
+    state = {"live": True, "journal": None}
+    bodies = []
+
+    def produce(path, i):
+        rewrite_file(path, steps[i]["content"], steps[i].get("stamp"), how)
+
+    def fetch_body(i):
+        bodies.append(i)
+        if steps[i]["fresh"]:
+            produce(state["path"], i)     # the intercepted function is what writes the file
+        return 'body'
+
+    # the step number is the only captured argument: the path is not part of the key (replayed at another path)
+    @recorder.static_intercept_input('fetch', capture_args=[CapturedArg(None, 'step')], data_handler=ih)
+    def s_fetch(*a, **k):
+        return fetch_body(k['step'])
+
+    @recorder.static_intercept_output('store', data_handler=oh)
+    def s_store(*a, **k):
+        return None
+
+    class Op(object):
+        @recorder.intercept_input('fetch', capture_args=[CapturedArg(None, 'step')], data_handler=ih)
+        def i_fetch(self, *a, **k):
+            return fetch_body(k['step'])
+
+        @recorder.intercept_output('store', data_handler=oh)
+        def i_store(self, *a, **k):
+            return None
+
+        @recorder.operation()
+        def execute(self, path):
+            seen = []
+            state["path"] = path
+            for i, st in enumerate(steps):
+                j = state["journal"]
+                mark = len(j.reads())
+                if st["via"] == "in":
+                    extras = [filespec.real_value(a) for a in case["in"]["extras"]]
+                    args, kwargs = filespec.call_args(extras, case["in"]["rec" if state["live"] else "play"], path, name)
+                    if case["in"]["static"]:
+                        s_fetch(*args, step=i, **kwargs)
+                    else:
+                        self.i_fetch(*args, step=i, **kwargs)
+                    seen.append([filespec.show_bytes(read_file(path)), len(j.reads()) - mark])
+                else:
+                    if st["fresh"]:
+                        produce(path, i)        # the operation's own product, also when it is replayed
+                    extras = [filespec.real_value(a) for a in case["out"]["extras"]]
+                    args, kwargs = filespec.call_args(extras, case["out"]["rec" if state["live"] else "play"], path, name)
+                    if case["out"]["static"]:
+                        s_store(*args, **kwargs)
+                    else:
+                        self.i_store(*args, **kwargs)
+                    seen.append([None, len(j.reads()) - mark])
+            return seen
+
+    with Journal(roles) as j:
+        state["journal"] = j
+        rec_seen = Op().execute(ri)
+    if len(saved) != 1:
+        return {"status": "discarded" if not saved else "saved-%d" % len(saved)}
+    if os.path.exists(ri):
+        os.remove(ri)
+    if case.get("pre") is not None:
+        write_file(pi, case["pre"])
+    state["live"] = False
+    del bodies[:]
+    box = []
+    with Journal(roles) as j:
+        state["journal"] = j
+        try:
+            playback = recorder.play(saved[0], lambda r: box.append(Op().execute(pi)))
+        except Exception as ex:
+            return {"status": "replay-raises", "replay_raises": exc_name(ex)}
+    if not box:
+        return {"status": "replay-no-result"}
+
+    def holders(outputs):
+        out = {}
+        for o in outputs:
+            if o.key.startswith('output: store #') and o.key.endswith('.output'):
+                n = int(o.key[len('output: store #'):-len('.output')])
+                try:
+                    out[n] = filespec.show_bytes(oh.restore_output_from_recording(o.value).file_content)
+                except Exception as ex:
+                    out[n] = {"raises": exc_name(ex)}
+        return out
+
+    h_rec, h_play = holders(playback.recorded_outputs), holders(playback.playback_outputs)
+    obs_steps = []
+    n_out = 0
+    for i, st in enumerate(steps):
+        if st["via"] == "in":
+            obs_steps.append({"restored": box[0][i][0], "reads_rec": rec_seen[i][1]})
+        else:
+            n_out += 1
+            obs_steps.append({"holder_rec": h_rec.get(n_out), "holder_play": h_play.get(n_out),
+                              "reads_rec": rec_seen[i][1]})
+    return {"status": "ok", "steps": obs_steps, "bodies_play": list(bodies),
+            "ri_after_replay": os.path.exists(ri)}
+
+
 def run_c20(case):
-    return {"b64": run_b64, "above": run_above, "path": run_path, "trip": run_trip, "seq": run_seq}[case["kind"]](case)
+    return {"b64": run_b64, "above": run_above, "path": run_path, "trip": run_trip, "seq": run_seq,
+            "hist": run_hist}[case["kind"]](case)
 
 
 if __name__ == '__main__':
